@@ -89,6 +89,11 @@ def run(chk, tier):
     pa = q.call_sites(r"Interpreter::<'a>::get_param_by_name$")
     pr = q.call_sites(r"CelContext::get_program$")
     be = q.call_sites(r"CelError::binding$")
+    # ... or a private helper of the interpreter that builds that failure
+    for hb_ in F.bodies.values():
+        if hb_.pkg == "rscel" and hb_.path.startswith("rscel::interp::") and hb_.id != b.id and str(hb_.d.get("vis", "")).startswith("Restricted") \
+                and mirq.BodyQ(hb_).call_sites(r"CelError::binding$"):
+            be += [(i_, t_, p_) for i_, t_ in b.calls() for p_ in [lib.callee_of(t_)[1]] if lib.callee_of(t_)[0] == hb_.id]
     rr = q.call_sites(r"Interpreter::<'a>::run_raw$")
     only_via_miss(chk, "R12.1", q, ty, pa, 0, (), "pop|type before variable")
     only_via_miss(chk, "R12.1", q, pa, pr, 0, (), "pop|variable before program")
